@@ -707,6 +707,12 @@ fn prop_configs(n: u32, base: u32) -> Vec<Vec<(u32, u32, u8)>> {
                 }
                 out.push(l);
             }
+            // line order carries no meaning in these files: the same lines in descending order
+            if lines.len() >= 2 {
+                let mut r = lines.clone();
+                r.reverse();
+                out.push(r);
+            }
         }
     }
     out
@@ -800,7 +806,7 @@ pub fn run(_env: &Env, run: &Run) -> (Stats, Coverage) {
     st.sample(json!({"Scripts.txt": "0370..0371 ; P / 0372 ; P / 0373 ; Q (Q lines first)", "expected": "T_P = 0370-0372, T_Q = 0373, T_Z empty"}));
     st.sample(json!({"built": "all tables in OUT_DIR of precis-core and precis-profiles build scripts", "expected": "each denotes exactly what the repo's resource files assign, for every code point, and is binary-searchable"}));
     let cov = Coverage {
-        rule: format!("(a) every table the real build scripts just emitted (read from cargo's out_dir) x every code point, against an independent reader of the same input files; (b) every tiling of a {}-slot code-point window into {{gap, single entry, First/Last range}} with {} attribute bundles (gc/ccc/bidi/decomposition), at four window positions (0, mid-plane, ending at U+10FFFD, ending at U+10FFFE), through RustCodeGen+UcdFileGen+GeneralCategoryGen with UcdTableGen x4, UnassignedTableGen, ViramaTableGen, WidthMappingTableGen, BidiClassGen; (c) every assignment of {{none,P,Q}} to {} slots x every segmentation into single/range lines x both value-grouped orders through UnicodeGen<Script> and, in rotation, the four other property-file types; oracle per table: denotation (merged intervals and values) equals what the input assigns, entries strictly increasing and disjoint, declared length = emitted length, and a binary search with the library's own expression over real precis_core::Codepoints finds exactly the members (window +-2 and far probes); bidi uses the library's default-L lookup semantics; non-trivial = inputs with at least one range and two entries / two lines", n, nb, pn),
+        rule: format!("(a) every table the real build scripts just emitted (read from cargo's out_dir) x every code point, against an independent reader of the same input files; (b) every tiling of a {}-slot code-point window into {{gap, single entry, First/Last range}} with {} attribute bundles (gc/ccc/bidi/decomposition), at four window positions (0, mid-plane, ending at U+10FFFD, ending at U+10FFFE), through RustCodeGen+UcdFileGen+GeneralCategoryGen with UcdTableGen x4, UnassignedTableGen, ViramaTableGen, WidthMappingTableGen, BidiClassGen; (c) every assignment of {{none,P,Q}} to {} slots x every segmentation into single/range lines x both value-grouped orders and the fully reversed line order through UnicodeGen<Script> and, in rotation, the four other property-file types; oracle per table: denotation (merged intervals and values) equals what the input assigns, entries strictly increasing and disjoint, declared length = emitted length, and a binary search with the library's own expression over real precis_core::Codepoints finds exactly the members (window +-2 and far probes); bidi uses the library's default-L lookup semantics; non-trivial = inputs with at least one range and two entries / two lines", n, nb, pn),
         alphabet: json!({"bundles": BUNDLES.iter().take(nb as usize).map(|b| format!("{};{};{};{}", b.0, b.1, b.2, b.3)).collect::<Vec<_>>(), "window_bases": bases.iter().map(|b| format!("{:04X}", b)).collect::<Vec<_>>()}),
         bound_completed: format!("{} UnicodeData tilings x 4 positions; {} property-file configurations x 2 file types; built tables: all code points", nconf, npconf),
         exhaustive: false,
